@@ -125,6 +125,15 @@ func sizedActivity(h fitmodel.Header, target int) []byte {
 	return buildFile(h, recs...)
 }
 
+// devFieldFile: records with developer fields of 8 and 3 bytes (and a developer-only definition).
+func devFieldFile(h fitmodel.Header) []byte {
+	recs := fitmodel.FileIdRecords(0, 4)
+	d1 := fitmodel.Def{Local: 1, Global: 20, Fields: []fitmodel.FieldDef{{Num: 3, Size: 1, Base: fitmodel.Uint8}}, DevFlag: true, Dev: []fitmodel.DevDef{{Num: 0, Size: 8, Idx: 0}, {Num: 1, Size: 3, Idx: 0}}}
+	d2 := fitmodel.Def{Local: 2, Global: 20, DevFlag: true, Dev: []fitmodel.DevDef{{Num: 0, Size: 5, Idx: 1}}}
+	recs = append(recs, d1.Bytes(), fitmodel.Data(1, []byte{71, 1, 2, 3, 4, 5, 6, 7, 8, 9, 10, 11}), d2.Bytes(), fitmodel.Data(2, []byte{1, 2, 3, 4, 5}), fitmodel.Data(1, []byte{72, 8, 7, 6, 5, 4, 3, 2, 1, 0, 9, 8}))
+	return buildFile(h, recs...)
+}
+
 func chain(name string, members ...[]byte) namedStream {
 	return namedStream{Name: name, B: fitmodel.Concat(members...), Members: members}
 }
@@ -147,6 +156,8 @@ var (
 	sChainBig    = chain("chain(activity-700rec,min14)", sBig.B, sMin14.B)
 	s4096        = single("activity-datasize-4096", sizedActivity(hdr12(), 4096))
 	s8192        = single("activity-datasize-8192", sizedActivity(hdr14(), 8192))
+	sDev         = single("developer-fields", devFieldFile(hdr14()))
+	sChainDev    = chain("chain(developer-fields,activity-3rec)", devFieldFile(hdr12()), sAct3.B)
 	sMonState    = single("monitoring-stateful", monitoringStateful(hdr14()))
 	sZero        = single("zero-size-fields", zeroSizeFile(hdr12()))
 	sChainState  = chain("chain(activity-3rec,monitoring-stateful)", sAct3.B, sMonState.B)
